@@ -541,8 +541,9 @@ func (a *Analyzer) computeValueSummaryOpt(f *ssa.Function, force bool) *Term {
 					return nil
 				}
 			}
-			// an effectful helper with branches decides something: keep it named so that its summary applies
-			if len(f.Blocks) != 1 {
+			// an effectful helper with branches decides something: keep it named so that its summary applies - unless it
+			// hands back, unchanged, all results of one call (`return tic.initView(view)`): then it decides nothing about them
+			if len(f.Blocks) != 1 && !tailForwards(rets[0]) {
 				return nil
 			}
 		}
@@ -2118,4 +2119,25 @@ func (a *Analyzer) globalTable(g *ssa.Global) *Term {
 	t := T("array", "", elems...)
 	a.globalTables[g] = t
 	return t
+}
+
+// tailForwards: the return hands back exactly the results of one call, in order.
+func tailForwards(ret *ssa.Return) bool {
+	if len(ret.Results) < 2 {
+		return false
+	}
+	var tuple ssa.Value
+	for i, rv := range ret.Results {
+		ex, ok := rv.(*ssa.Extract)
+		if !ok || ex.Index != i {
+			return false
+		}
+		if tuple == nil {
+			tuple = ex.Tuple
+		} else if ex.Tuple != tuple {
+			return false
+		}
+	}
+	_, isCall := tuple.(*ssa.Call)
+	return isCall
 }
